@@ -24,7 +24,7 @@ MACHINES = {"C12": "sim.machines.c12", "C13": "sim.machines.c13", "C14": "sim.ma
 
 TIERS = {
     # wall budget for the search phase (s), per-run cap (s), max runs
-    "quick": dict(budget=100, run_cap=60, max_runs=100000, minimise_budget=90),
+    "quick": dict(budget=100, run_cap=90, max_runs=100000, minimise_budget=90),
     "thorough": dict(budget=1500, run_cap=180, max_runs=10 ** 7, minimise_budget=300),
 }
 
@@ -124,6 +124,13 @@ def batch(prop: str, tier: str, batch_seed: int, *, workers: int | None = None, 
         except cf.process.BrokenProcessPool as e:
             harness_errors.append(f"process pool broke: {e}")
     search_wall = time.time() - t_start
+    # a run that hit its wall cap proves nothing either way: it is not an evaluation and never a pass. A few
+    # of them (a loaded machine) do not invalidate the batch; many of them do.
+    timeouts = [r for r in results if (r.get("harness_error") or "").startswith("run exceeded")]
+    results = [r for r in results if r not in timeouts]
+    if len(timeouts) > max(3, 0.02 * max(1, len(results))):
+        harness_errors.append(f"{len(timeouts)} of {len(results) + len(timeouts)} runs exceeded the {tcfg['run_cap']}s wall cap "
+                              f"(seeds {[r['seed'] for r in timeouts[:5]]})")
     for r in results:
         if r.get("harness_error"):
             harness_errors.append(f"seed {r['seed']}: {r['harness_error']}")
@@ -188,7 +195,7 @@ def batch(prop: str, tier: str, batch_seed: int, *, workers: int | None = None, 
     from . import evidence
     evidence.write(prop, tier, batch_seed, results, search_wall=search_wall, total_wall=time.time() - t_start,
                    n_violations=len(new_viol), known_hits=sorted(seen_known | set(known_hits)),
-                   harness_errors=harness_errors, workers=workers)
+                   harness_errors=harness_errors, workers=workers, timeouts=[r["seed"] for r in timeouts])
     if not quiet:
         n = len(results)
         nt = sum(1 for r in results if r.get("nontrivial"))
